@@ -21,6 +21,8 @@ mod sanit;
 use c19_model::*;
 
 const PERTURB_US: u64 = 200;
+/// share of the soft wall-clock budget after which the native phase stops generating
+const NATIVE_BUDGET_SHARE: f64 = 0.45;
 const SHRINK_TRIES: usize = 30;
 const REPLAY_TRIES: usize = 400;
 const MAX_REPORTED_PER_SHARD: usize = 2;
@@ -124,7 +126,7 @@ impl C19 {
     }
 
     fn explore_native(&self, cli: &Cli, st: &mut Stats) {
-        let per = cli.n(320, 6_500);
+        let per = cli.n(320, 4_000);
         let schedules = cli.tier.pick(4u32, 8u32);
         let orders: Arc<Mutex<HashSet<u64>>> = Arc::new(Mutex::new(HashSet::new()));
         let o2 = Arc::clone(&orders);
@@ -164,7 +166,7 @@ impl C19 {
             *g2.lock().unwrap() += done;
             // (b) random configurations
             for _ in 0..per {
-                if cli2.expired() {
+                if cli2.start.elapsed().as_secs_f64() > cli2.budget_s * NATIVE_BUDGET_SHARE {
                     st.count("stopped_by_time_budget");
                     break;
                 }
@@ -220,18 +222,24 @@ impl C19 {
         match sanit::tsan_build(&root, 1200) {
             Err(e) => st.inconclusive(format!("tsan: {}", e)),
             Ok(dir) => {
-                let args: Vec<String> = vec![cli.seed.to_string(), cli.n(200, 4_000).to_string(), "100".into(), "full".into()];
-                let v = sanit::tsan_run(&dir.join("c19"), "C19", &args, 1200);
-                let a2 = args.clone();
-                if let Some(out) = sanit::fold(st, "C19", "tsan", v, |kind, report, line| {
-                    json!({"kind": "tsan", "bin": "c19", "args": a2, "report_kind": kind, "report": report, "workload_line": line})
-                }) {
-                    let sums = sanit::summary_lines(&out, "C19");
-                    if sums.is_empty() {
-                        st.inconclusive("tsan: the workload printed no summary");
+                let procs = 8u64;
+                let per = cli.n(25, 400);
+                let args_list: Vec<Vec<String>> = (0..procs)
+                    .map(|k| vec![(cli.seed.wrapping_mul(1000) + k).to_string(), per.to_string(), "100".into(), "full".into()])
+                    .collect();
+                let mut all = String::new();
+                for (v, args) in sanit::tsan_run_many(&dir.join("c19"), "C19", &args_list, 1200).into_iter().zip(args_list.iter()) {
+                    let a2 = args.clone();
+                    if let Some(out) = sanit::fold(st, "C19", "tsan", v, |kind, report, line| {
+                        json!({"kind": "tsan", "bin": "c19", "args": a2, "report_kind": kind, "report": report, "workload_line": line})
+                    }) {
+                        if sanit::summary_lines(&out, "C19").is_empty() {
+                            st.inconclusive("tsan: a workload process printed no summary");
+                        }
+                        all.push_str(&out);
                     }
-                    fold_summaries(st, "tsan", &sums);
                 }
+                fold_summaries(st, "tsan", &sanit::summary_lines(&all, "C19"));
             }
         }
     }
@@ -258,7 +266,7 @@ impl Check for C19 {
         "C19"
     }
     fn rule(&self) -> String {
-        "EXHAUSTIVE grid: every (n rules on one salience level, n in 1..=24) x max_threads 1..=16 x min_rules_per_thread 1..=4 with one generated rule set per cell, 2 schedules each. SAMPLED: random rule sets of 1..=24 rules (conditions: int/string/bool field vs literal of the same type under && / || / ! to depth 3 over 12 fields, flat and nested, fields missing in some cases; salience pools with ties incl. i32::MIN/MAX; 1 in 8 rules disabled; actions Set/Log/custom writing only Out.* keys that no condition reads), max_threads 1..=16, min_rules_per_thread 1..=4; one third of the cases are written as GRL text and parsed by the real parser (case skipped and counted if the parser does not return the rules as written). Every case: one run with parallelism off (the engine's one-by-one path) and 4 (quick) / 8 (thorough) runs with parallelism on under seeded yields/sleeps at the library's schedule points; each run checked for: Ok result, every enabled rule exactly once in execution_contexts and no other, total_rules_evaluated == number of enabled rules, total_rules_fired == number of fired contexts, fired flag == reference verdict where defined, no lower-salience rule before a higher one; parallel vs one-by-one: same fired set, same counts. A case is non-trivial when at least one rule fired, at least one did not and some salience level held 2 or more rules; distinct by case. Thorough adds Miri many-seeds (48 scheduler seeds x 6 small cases) and a ThreadSanitizer build (4000 cases).".into()
+        "EXHAUSTIVE grid: every (n rules on one salience level, n in 1..=24) x max_threads 1..=16 x min_rules_per_thread 1..=4 with one generated rule set per cell, 2 schedules each. SAMPLED: random rule sets of 1..=24 rules (conditions: int/string/bool field vs literal of the same type under && / || / ! to depth 3 over 12 fields, flat and nested, fields missing in some cases; salience pools with ties incl. i32::MIN/MAX; 1 in 8 rules disabled; actions Set/Log/custom writing only Out.* keys that no condition reads), max_threads 1..=16, min_rules_per_thread 1..=4; one third of the cases are written as GRL text and parsed by the real parser (case skipped and counted if the parser does not return the rules as written). Every case: one run with parallelism off (the engine's one-by-one path) and 4 (quick) / 8 (thorough) runs with parallelism on under seeded yields/sleeps at the library's schedule points; each run checked for: Ok result, every enabled rule exactly once in execution_contexts and no other, total_rules_evaluated == number of enabled rules, total_rules_fired == number of fired contexts, fired flag == reference verdict where defined, no lower-salience rule before a higher one; parallel vs one-by-one: same fired set, same counts. A case is non-trivial when at least one rule fired, at least one did not and some salience level held 2 or more rules; distinct by case. Thorough adds Miri many-seeds (48 scheduler seeds x 6 small cases) and a ThreadSanitizer build (8 processes x 400 cases x 4 schedules).".into()
     }
     fn assumptions(&self) -> Vec<String> {
         vec![
